@@ -1,8 +1,713 @@
-//! C19 — generator and driver of the real API.
+//! C19 — k-mer / q-gram indexing and sparse chaining.
+//!
+//! ```text
+//! codes  <alpha hex> <q> <text hex>                        => w=<width> f=<codes> r=<codes>
+//! idx    <alpha hex> <q> <max_count|max> <text hex> <q;q;…> => ok <res;res;…> | BUILDPANIC <class>
+//!        query: g:<gram hex> | m:<min_count>:<pattern hex> | e:<pattern hex>
+//! kmer   <k> <x hex> <y hex> <match_score> <gap_open> <gap_extend>
+//!                                                          => m= h1= h2= score= path= sdp= uni=
+//! lcs    <k> <x:y,…>                                       => score=<n> path=<idx>
+//! sdp    <k> <match_score> <gap_open> <gap_extend> <x:y,…> => sdp=<idx> uni=<idx>
+//! expand <k> <allowed_mismatches> <x hex> <y hex> <x:y,…>  => exp=<pairs> score=<n> path=<idx>
+//! ```
+//! gap_open / gap_extend are magnitudes (negated here).
 use crate::util::*;
+use bio::alignment::sparse;
+use bio::alphabets::{Alphabet, RankTransform};
+use bio::data_structures::qgram_index::QGramIndex;
+use std::panic::{catch_unwind, AssertUnwindSafe};
 
-pub fn gen(_tier: &str, _rng: &mut Rng, _out: &mut Vec<String>) {}
+fn panic_class(e: &(dyn std::any::Any + Send)) -> String {
+    let msg = if let Some(s) = e.downcast_ref::<&str>() {
+        s.to_string()
+    } else if let Some(s) = e.downcast_ref::<String>() {
+        s.clone()
+    } else {
+        "unknown".to_string()
+    };
+    let mut m: String =
+        msg.chars().map(|c| if c.is_ascii_alphanumeric() { c.to_ascii_lowercase() } else { '-' }).collect();
+    while m.contains("--") {
+        m = m.replace("--", "-");
+    }
+    m.truncate(80);
+    m
+}
 
-pub fn exec(_toks: &[&str]) -> Result<String, String> {
-    Err("unimplemented".into())
+// ------------------------------------------------------------------------------------------------ generators
+
+/// `n` distinct byte symbols, in ascending order
+fn alphabet(rng: &mut Rng, n: usize) -> Vec<u8> {
+    let mut a: Vec<u8> = match rng.below(4) {
+        0 => (0..n).map(|i| b"ACGTNXYZ"[i % 8].wrapping_add((i / 8) as u8 * 8)).collect(),
+        1 => (0..n).map(|i| (i as u8).wrapping_mul(37).wrapping_add(3)).collect(),
+        _ => {
+            let mut s = std::collections::BTreeSet::new();
+            if n >= 2 && rng.chance(1, 2) {
+                s.insert(0u8);
+                s.insert(255u8);
+            }
+            while s.len() < n {
+                s.insert(rng.below(256) as u8);
+            }
+            s.into_iter().collect()
+        }
+    };
+    a.sort_unstable();
+    a.dedup();
+    let mut x = 0u8;
+    while a.len() < n {
+        if !a.contains(&x) {
+            a.push(x);
+        }
+        x = x.wrapping_add(1);
+    }
+    a.sort_unstable();
+    a
+}
+
+fn bits_for(n: usize) -> usize {
+    let mut b = 0;
+    while (1usize << b) < n {
+        b += 1;
+    }
+    b
+}
+
+fn ranks_of(alpha: &[u8], s: &[u8]) -> Vec<usize> {
+    s.iter().map(|c| alpha.iter().position(|a| a == c).unwrap()).collect()
+}
+
+fn code_of(bits: usize, rs: &[usize]) -> u128 {
+    rs.iter().fold(0u128, |c, &r| (c << bits) | r as u128)
+}
+
+fn some_text(rng: &mut Rng, alpha: &[u8], maxlen: usize) -> Vec<u8> {
+    let len = match rng.below(10) {
+        0 => rng.below(4),
+        1 => maxlen,
+        _ => rng.below(maxlen + 1),
+    };
+    match rng.below(6) {
+        0 => {
+            // periodic
+            let per = 1 + rng.below(4);
+            let w = rng.seq(alpha, per);
+            (0..len).map(|i| w[i % per]).collect()
+        }
+        1 => {
+            // a repeated block with a few point changes
+            let per = 2 + rng.below(8);
+            let w = rng.seq(alpha, per);
+            let mut t: Vec<u8> = (0..len).map(|i| w[i % per]).collect();
+            for _ in 0..rng.below(4) {
+                if !t.is_empty() {
+                    let i = rng.below(t.len());
+                    t[i] = *rng.pick(alpha);
+                }
+            }
+            t
+        }
+        _ => rng.seq(alpha, len),
+    }
+}
+
+/// make every q-gram code of `t` smaller than |A|^q (so that the index of a non-power-of-two alphabet can be built)
+fn tame(rng: &mut Rng, alpha: &[u8], q: usize, t: &mut Vec<u8>) {
+    let bits = bits_for(alpha.len());
+    let cap = (alpha.len() as u128).pow(q as u32);
+    for _ in 0..400 {
+        let rs = ranks_of(alpha, t);
+        let bad = (0..(t.len() + 1).saturating_sub(q)).find(|&i| code_of(bits, &rs[i..i + q]) >= cap);
+        match bad {
+            None => return,
+            Some(i) => {
+                // lower the leading symbol (or a random one of the window)
+                let j = if rng.chance(2, 3) { i } else { i + rng.below(q) };
+                let r = rs[j];
+                t[j] = alpha[if r > 0 { rng.below(r) } else { 0 }];
+                if r == 0 {
+                    t[i] = alpha[0];
+                    if q > 1 {
+                        t[i + 1] = alpha[0];
+                    }
+                }
+            }
+        }
+    }
+}
+
+fn pattern_for(rng: &mut Rng, alpha: &[u8], q: usize, text: &[u8]) -> Vec<u8> {
+    let n = text.len();
+    match rng.below(12) {
+        0 => text.to_vec(),
+        // substring at every offset
+        1..=4 if n > 0 => {
+            let s = rng.below(n);
+            let e = s + rng.below(n - s + 1);
+            let mut p = text[s..e].to_vec();
+            if rng.chance(1, 2) {
+                p = rng.mutate(&p, alpha, 10);
+            }
+            p
+        }
+        // substring with foreign material in front (pattern position ahead of the text position) and/or behind
+        5 | 6 if n > 0 => {
+            let s = rng.below(n);
+            let e = s + rng.below(n - s + 1);
+            let pre = rng.below(s + 4);
+            let mut p = rng.seq(alpha, pre);
+            p.extend_from_slice(&text[s..e]);
+            let post = rng.below(4);
+            p.extend(rng.seq(alpha, post));
+            p
+        }
+        // two separated pieces of the text on one diagonal, differing in between
+        7 if n >= 2 * q + 2 => {
+            let mut p = text.to_vec();
+            let i = q + rng.below(n - 2 * q);
+            let others: Vec<u8> = alpha.iter().cloned().filter(|&c| c != p[i]).collect();
+            if !others.is_empty() {
+                p[i] = *rng.pick(&others);
+            }
+            let s = rng.below(q + 1).min(i.saturating_sub(q));
+            p[s..].to_vec()
+        }
+        8 => rng.mutate(text, alpha, 15),
+        9 => {
+            let l = rng.below(q + 1);
+            rng.seq(alpha, l)
+        }
+        10 => {
+            let per = 1 + rng.below(3);
+            let w = rng.seq(alpha, per);
+            let l = rng.below(30);
+            (0..l).map(|i| w[i % per]).collect()
+        }
+        _ => {
+            let l = rng.below(40);
+            rng.seq(alpha, l)
+        }
+    }
+}
+
+fn gen_codes(rng: &mut Rng, out: &mut Vec<String>) {
+    let n = match rng.below(12) {
+        0..=7 => 1 + rng.below(7),
+        8 => 8,
+        9 => *rng.pick(&[9usize, 15, 16, 17, 31, 32, 33]),
+        10 => *rng.pick(&[64usize, 65, 128, 129, 200]),
+        _ => *rng.pick(&[255usize, 256]),
+    };
+    let alpha = alphabet(rng, n);
+    let bits = bits_for(n);
+    let qmax = if bits == 0 { 70 } else { 64 / bits };
+    let q = match rng.below(6) {
+        0 => qmax,
+        1 => 1 + rng.below(qmax),
+        2 => (qmax / 2).max(1) + rng.below(qmax / 2 + 1),
+        _ => 1 + rng.below(qmax.min(6)),
+    }
+    .min(qmax)
+    .max(1);
+    let maxlen = if rng.chance(1, 4) { q + 12 } else { 60 };
+    let text = some_text(rng, &alpha, maxlen);
+    // the alphabet is handed over unsorted and with a duplicate now and then
+    let mut given = alpha.clone();
+    if rng.chance(1, 3) {
+        given.reverse();
+    }
+    if rng.chance(1, 4) {
+        given.push(alpha[rng.below(alpha.len())]);
+    }
+    out.push(format!("codes {} {} {}", hex(&given), q, hex(&text)));
+}
+
+fn gen_idx(rng: &mut Rng, out: &mut Vec<String>) {
+    let n = match rng.below(10) {
+        0 => 1,
+        1 => 2,
+        2 => 4,
+        3 => 8,
+        _ => *rng.pick(&[3usize, 3, 5, 5, 6, 7]),
+    };
+    let alpha = alphabet(rng, n);
+    let mut qmax = 1;
+    while qmax < 10 && (n as u64).pow(qmax as u32 + 1) <= 20_000 {
+        qmax += 1;
+    }
+    let q = if rng.chance(1, 5) { 1 + rng.below(qmax) } else { 1 + rng.below(qmax.min(4)) };
+    let mut text = some_text(rng, &alpha, 60);
+    if !n.is_power_of_two() && rng.chance(3, 4) {
+        tame(rng, &alpha, q, &mut text);
+    }
+    let mc = match rng.below(8) {
+        0..=3 => "max".to_string(),
+        4 => "0".to_string(),
+        5 => "1".to_string(),
+        _ => format!("{}", 1 + rng.below(4)),
+    };
+    let nq = 2 + rng.below(5);
+    let mut qs = vec![];
+    for _ in 0..nq {
+        match rng.below(7) {
+            0 | 1 => {
+                // a q-gram of the text, or a random one
+                let g = if text.len() >= q && rng.chance(3, 4) {
+                    let i = rng.below(text.len() - q + 1);
+                    text[i..i + q].to_vec()
+                } else {
+                    let mut g = rng.seq(&alpha, q);
+                    if !n.is_power_of_two() && rng.chance(3, 4) {
+                        tame(rng, &alpha, q, &mut g);
+                    }
+                    g
+                };
+                qs.push(format!("g:{}", hex(&g)));
+            }
+            2..=4 => {
+                let mut p = pattern_for(rng, &alpha, q, &text);
+                if !n.is_power_of_two() && rng.chance(3, 4) {
+                    tame(rng, &alpha, q, &mut p);
+                }
+                let minc = match rng.below(6) {
+                    0 => 0,
+                    1 | 2 => 1,
+                    3 => 2,
+                    _ => 1 + rng.below(4),
+                };
+                qs.push(format!("m:{}:{}", minc, hex(&p)));
+            }
+            _ => {
+                let mut p = pattern_for(rng, &alpha, q, &text);
+                if !n.is_power_of_two() && rng.chance(3, 4) {
+                    tame(rng, &alpha, q, &mut p);
+                }
+                qs.push(format!("e:{}", hex(&p)));
+            }
+        }
+    }
+    out.push(format!("idx {} {} {} {} {}", hex(&alpha), q, mc, hex(&text), qs.join(";")));
+}
+
+fn naive_kmer_matches(x: &[u8], y: &[u8], k: usize) -> Vec<(u32, u32)> {
+    let mut v = vec![];
+    if k == 0 || x.len() < k || y.len() < k {
+        return v;
+    }
+    for i in 0..=x.len() - k {
+        for j in 0..=y.len() - k {
+            if x[i..i + k] == y[j..j + k] {
+                v.push((i as u32, j as u32));
+            }
+        }
+    }
+    v
+}
+
+fn seq_pair(rng: &mut Rng) -> (Vec<u8>, Vec<u8>, usize) {
+    let n = 1 + rng.below(4);
+    let alpha = alphabet(rng, n);
+    loop {
+        let k = match rng.below(5) {
+            0 => 1,
+            1 => 2,
+            _ => 1 + rng.below(8),
+        };
+        let x = some_text(rng, &alpha, 60);
+        let y = match rng.below(6) {
+            0 => some_text(rng, &alpha, 60),
+            1 => x.clone(),
+            2 => {
+                // a piece of x inside other material
+                let s = rng.below(x.len() + 1);
+                let e = s + rng.below(x.len() - s + 1);
+                let pre = rng.below(10);
+                let mut y = rng.seq(&alpha, pre);
+                y.extend_from_slice(&x[s..e]);
+                let post = rng.below(10);
+                y.extend(rng.seq(&alpha, post));
+                y
+            }
+            _ => {
+                let rate = *rng.pick(&[3usize, 8, 15, 30]);
+                rng.mutate(&x, &alpha, rate)
+            }
+        };
+        let (x, y) = if rng.chance(1, 3) { (y, x) } else { (x, y) };
+        if naive_kmer_matches(&x, &y, k).len() <= 160 {
+            return (x, y, k);
+        }
+    }
+}
+
+fn gen_kmer(rng: &mut Rng, out: &mut Vec<String>) {
+    let (x, y, k) = seq_pair(rng);
+    out.push(format!("kmer {} {} {} {} {} {}", k, hex(&x), hex(&y), 1 + rng.below(3), rng.below(6), rng.below(3)));
+}
+
+fn show_pairs(v: &[(u32, u32)]) -> String {
+    if v.is_empty() {
+        "-".into()
+    } else {
+        v.iter().map(|(a, b)| format!("{}:{}", a, b)).collect::<Vec<_>>().join(",")
+    }
+}
+
+fn match_list(rng: &mut Rng, k: usize) -> Vec<(u32, u32)> {
+    let g = 3 + rng.below(40);
+    let n = match rng.below(4) {
+        0 => rng.below(4),
+        1 | 2 => rng.below(13),
+        _ => rng.below(60),
+    };
+    let mut v: Vec<(u32, u32)> = vec![];
+    while v.len() < n {
+        match rng.below(4) {
+            // a diagonal run
+            0 => {
+                let (x, y) = (rng.below(g) as u32, rng.below(g) as u32);
+                let l = 1 + rng.below(2 * k + 3);
+                for t in 0..l as u32 {
+                    v.push((x + t, y + t));
+                }
+            }
+            // a match exactly k (or k±1) after an earlier one
+            1 if !v.is_empty() => {
+                let (x, y) = *rng.pick(&v);
+                let dx = (k as i64 + rng.range(-1, 1)).max(0) as u32;
+                let dy = (k as i64 + rng.range(-1, 2)).max(0) as u32;
+                v.push((x + dx, y + dy));
+            }
+            _ => v.push((rng.below(g) as u32, rng.below(g) as u32)),
+        }
+    }
+    v.sort_unstable();
+    v.dedup();
+    v
+}
+
+fn gen_lcs(rng: &mut Rng, out: &mut Vec<String>) {
+    let k = 1 + rng.below(6);
+    let v = match_list(rng, k);
+    out.push(format!("lcs {} {}", k, show_pairs(&v)));
+}
+
+fn gen_sdp(rng: &mut Rng, out: &mut Vec<String>) {
+    let k = 1 + rng.below(6);
+    let v = match_list(rng, k);
+    out.push(format!("sdp {} {} {} {} {}", k, rng.below(4), rng.below(8), rng.below(4), show_pairs(&v)));
+}
+
+fn gen_expand(rng: &mut Rng, out: &mut Vec<String>) {
+    let (x, y, k) = seq_pair(rng);
+    let all = naive_kmer_matches(&x, &y, k);
+    let mut ms: Vec<(u32, u32)> = match rng.below(4) {
+        0 => all.clone(),
+        // arbitrary in-range seeds
+        1 if x.len() >= k && y.len() >= k => (0..rng.below(8))
+            .map(|_| (rng.below(x.len() - k + 1) as u32, rng.below(y.len() - k + 1) as u32))
+            .collect(),
+        _ => {
+            let keep = 1 + rng.below(4);
+            all.iter().cloned().filter(|_| rng.chance(1, keep)).collect()
+        }
+    };
+    ms.sort_unstable();
+    ms.dedup();
+    out.push(format!("expand {} {} {} {} {}", k, rng.below(3), hex(&x), hex(&y), show_pairs(&ms)));
+}
+
+fn enum_seqs(alpha: &[u8], maxlen: usize) -> Vec<Vec<u8>> {
+    let mut out = vec![];
+    let mut cur: Vec<Vec<u8>> = vec![vec![]];
+    for _ in 0..=maxlen {
+        out.extend(cur.iter().cloned());
+        let mut nxt = vec![];
+        for s in &cur {
+            for &a in alpha {
+                let mut t = s.clone();
+                t.push(a);
+                nxt.push(t);
+            }
+        }
+        cur = nxt;
+    }
+    out
+}
+
+pub fn gen(tier: &str, rng: &mut Rng, out: &mut Vec<String>) {
+    let scale = if tier == "thorough" { 25 } else { 1 };
+    for _ in 0..1500 * scale {
+        gen_idx(rng, out);
+    }
+    for _ in 0..600 * scale {
+        gen_codes(rng, out);
+    }
+    for _ in 0..500 * scale {
+        gen_kmer(rng, out);
+    }
+    for _ in 0..600 * scale {
+        gen_lcs(rng, out);
+    }
+    for _ in 0..300 * scale {
+        gen_sdp(rng, out);
+    }
+    for _ in 0..300 * scale {
+        gen_expand(rng, out);
+    }
+    if tier == "thorough" {
+        // exhaustive small scope: alphabets of 1, 2, 3 symbols, q ≤ 2, all texts of length ≤ 6,
+        // every q-gram, and every pattern of length ≤ 3 through `matches` (min_count 1) and `exact_matches`
+        for n in 1..=3usize {
+            let alpha: Vec<u8> = b"abc"[..n].to_vec();
+            let texts = enum_seqs(&alpha, 6);
+            let pats = enum_seqs(&alpha, 3);
+            for q in 1..=2usize {
+                let grams: Vec<Vec<u8>> = enum_seqs(&alpha, q).into_iter().filter(|g| g.len() == q).collect();
+                for t in &texts {
+                    let mut qs: Vec<String> = grams.iter().map(|g| format!("g:{}", hex(g))).collect();
+                    for p in &pats {
+                        qs.push(format!("m:1:{}", hex(p)));
+                        qs.push(format!("e:{}", hex(p)));
+                    }
+                    for mc in ["max", "1"] {
+                        out.push(format!("idx {} {} {} {} {}", hex(&alpha), q, mc, hex(t), qs.join(";")));
+                    }
+                    out.push(format!("codes {} {} {}", hex(&alpha), q, hex(t)));
+                }
+            }
+        }
+    }
+}
+
+// ------------------------------------------------------------------------------------------------ exec
+
+fn parse_pairs(s: &str) -> Result<Vec<(u32, u32)>, String> {
+    let mut v = vec![];
+    for it in split_list(s, ',') {
+        let (a, b) = it.split_once(':').ok_or("pair")?;
+        v.push((parse::<u32>(a)?, parse::<u32>(b)?));
+    }
+    Ok(v)
+}
+
+fn strictly_sorted(v: &[(u32, u32)]) -> bool {
+    v.windows(2).all(|w| w[0] < w[1])
+}
+
+fn check_word(alpha: &[u8], s: &[u8]) -> Result<(), String> {
+    if s.iter().all(|c| alpha.contains(c)) {
+        Ok(())
+    } else {
+        Err("symbol outside the alphabet".into())
+    }
+}
+
+fn lcs_fields(ms: &[(u32, u32)], k: usize) -> String {
+    let r = sparse::lcskpp(ms, k);
+    format!("score={} path={}", r.score, join(&r.path, ","))
+}
+
+fn sdp_fields(ms: &[(u32, u32)], k: usize, msc: u32, go: i32, ge: i32) -> String {
+    let r = sparse::sdpkpp(ms, k, msc, -go, -ge);
+    let u = sparse::sdpkpp_union_lcskpp_path(ms, k, msc, -go, -ge);
+    format!("sdp={} uni={}", join(&r.path, ","), join(&u, ","))
+}
+
+pub fn exec(toks: &[&str]) -> Result<String, String> {
+    if toks.is_empty() {
+        return Err("arity".into());
+    }
+    match toks[0] {
+        "codes" => {
+            if toks.len() != 4 {
+                return Err("arity".into());
+            }
+            let alpha = unhex(toks[1])?;
+            let q: u32 = parse(toks[2])?;
+            let text = unhex(toks[3])?;
+            if alpha.is_empty() || q == 0 || q > 1000 {
+                return Err("domain".into());
+            }
+            check_word(&alpha, &text)?;
+            let a = Alphabet::new(&alpha);
+            let ranks = RankTransform::new(&a);
+            let w = ranks.get_width();
+            let f: Vec<usize> = ranks.qgrams(q, &text).collect();
+            let r: Vec<usize> = ranks.rev_qgrams(q, &text).collect();
+            Ok(format!("w={} f={} r={}", w, join(&f, ","), join(&r, ",")))
+        }
+        "idx" => {
+            if toks.len() != 6 {
+                return Err("arity".into());
+            }
+            let alpha = unhex(toks[1])?;
+            let q: u32 = parse(toks[2])?;
+            let mc: Option<usize> = if toks[3] == "max" { None } else { Some(parse(toks[3])?) };
+            let text = unhex(toks[4])?;
+            if alpha.is_empty() || q == 0 {
+                return Err("domain".into());
+            }
+            let mut sorted = alpha.clone();
+            sorted.sort_unstable();
+            sorted.dedup();
+            let n = sorted.len();
+            if bits_for(n) * q as usize > 64 || (n as f64).powi(q as i32) > 2.0e6 {
+                return Err("index too large".into());
+            }
+            check_word(&alpha, &text)?;
+            enum Q {
+                G(Vec<u8>),
+                M(usize, Vec<u8>),
+                E(Vec<u8>),
+            }
+            let mut queries = vec![];
+            for s in split_ne(toks[5], ';') {
+                let parts: Vec<&str> = s.split(':').collect();
+                let qu = match parts.as_slice() {
+                    ["g", h] => {
+                        let g = unhex(h)?;
+                        if g.len() != q as usize {
+                            return Err("gram length".into());
+                        }
+                        Q::G(g)
+                    }
+                    ["m", c, h] => Q::M(parse(c)?, unhex(h)?),
+                    ["e", h] => Q::E(unhex(h)?),
+                    _ => return Err("query".into()),
+                };
+                match &qu {
+                    Q::G(p) | Q::M(_, p) | Q::E(p) => check_word(&alpha, p)?,
+                }
+                queries.push(qu);
+            }
+            let a = Alphabet::new(&alpha);
+            let built = catch_unwind(AssertUnwindSafe(|| match mc {
+                None => QGramIndex::new(q, &text, &a),
+                Some(m) => QGramIndex::with_max_count(q, &text, &a, m),
+            }));
+            let index = match built {
+                Ok(i) => i,
+                Err(e) => return Ok(format!("BUILDPANIC {}", panic_class(&*e))),
+            };
+            let ranks = RankTransform::new(&a);
+            let mut res = vec![];
+            for qu in &queries {
+                let r = catch_unwind(AssertUnwindSafe(|| match qu {
+                    Q::G(g) => {
+                        let code = ranks.qgrams(q, g).next().unwrap();
+                        join(index.qgram_matches(code), ",")
+                    }
+                    Q::M(c, p) => {
+                        let mut v: Vec<String> = index
+                            .matches(p, *c)
+                            .iter()
+                            .map(|m| {
+                                format!(
+                                    "{}:{}:{}:{}:{}",
+                                    m.pattern.start, m.pattern.stop, m.text.start, m.text.stop, m.count
+                                )
+                            })
+                            .collect();
+                        v.sort();
+                        join(&v, ",")
+                    }
+                    Q::E(p) => {
+                        let mut v: Vec<String> = index
+                            .exact_matches(p)
+                            .iter()
+                            .map(|m| format!("{}:{}:{}:{}", m.pattern.start, m.pattern.stop, m.text.start, m.text.stop))
+                            .collect();
+                        v.sort();
+                        join(&v, ",")
+                    }
+                }));
+                res.push(match r {
+                    Ok(s) => s,
+                    Err(e) => format!("P!{}", panic_class(&*e)),
+                });
+            }
+            Ok(format!("ok {}", res.join(";")))
+        }
+        "kmer" => {
+            if toks.len() != 7 {
+                return Err("arity".into());
+            }
+            let k: usize = parse(toks[1])?;
+            let x = unhex(toks[2])?;
+            let y = unhex(toks[3])?;
+            let msc: u32 = parse(toks[4])?;
+            let go: i32 = parse(toks[5])?;
+            let ge: i32 = parse(toks[6])?;
+            if k == 0 || k > 1000 || msc > 1000 || !(0..=1000).contains(&go) || !(0..=1000).contains(&ge) {
+                return Err("domain".into());
+            }
+            let m = sparse::find_kmer_matches(&x, &y, k);
+            let h1 = sparse::find_kmer_matches_seq1_hashed(&sparse::hash_kmers(&x, k), &y, k);
+            let h2 = sparse::find_kmer_matches_seq2_hashed(&x, &sparse::hash_kmers(&y, k), k);
+            Ok(format!(
+                "m={} h1={} h2={} {} {}",
+                show_pairs(&m),
+                show_pairs(&h1),
+                show_pairs(&h2),
+                lcs_fields(&m, k),
+                sdp_fields(&m, k, msc, go, ge)
+            ))
+        }
+        "lcs" => {
+            if toks.len() != 3 {
+                return Err("arity".into());
+            }
+            let k: usize = parse(toks[1])?;
+            let ms = parse_pairs(toks[2])?;
+            if k == 0 || k > 1000 || !strictly_sorted(&ms) || ms.iter().any(|m| m.0 > 100_000 || m.1 > 100_000) {
+                return Err("domain".into());
+            }
+            Ok(lcs_fields(&ms, k))
+        }
+        "sdp" => {
+            if toks.len() != 6 {
+                return Err("arity".into());
+            }
+            let k: usize = parse(toks[1])?;
+            let msc: u32 = parse(toks[2])?;
+            let go: i32 = parse(toks[3])?;
+            let ge: i32 = parse(toks[4])?;
+            let ms = parse_pairs(toks[5])?;
+            if k == 0
+                || k > 1000
+                || msc > 1000
+                || !(0..=1000).contains(&go)
+                || !(0..=1000).contains(&ge)
+                || !strictly_sorted(&ms)
+                || ms.iter().any(|m| m.0 > 100_000 || m.1 > 100_000)
+            {
+                return Err("domain".into());
+            }
+            Ok(sdp_fields(&ms, k, msc, go, ge))
+        }
+        "expand" => {
+            if toks.len() != 6 {
+                return Err("arity".into());
+            }
+            let k: usize = parse(toks[1])?;
+            let mm: usize = parse(toks[2])?;
+            let x = unhex(toks[3])?;
+            let y = unhex(toks[4])?;
+            let ms = parse_pairs(toks[5])?;
+            if k == 0
+                || !strictly_sorted(&ms)
+                || ms.iter().any(|m| m.0 as usize + k > x.len() || m.1 as usize + k > y.len())
+            {
+                return Err("domain".into());
+            }
+            let ex = sparse::expand_kmer_matches(&x, &y, k, &ms, mm);
+            let sorted = strictly_sorted(&ex);
+            // lcskpp refuses unsorted input; the driver rejects an unsorted expansion before looking at the chain
+            let chain = if sorted { lcs_fields(&ex, k) } else { "score=0 path=-".to_string() };
+            Ok(format!("exp={} {}", show_pairs(&ex), chain))
+        }
+        _ => Err("unknown op".into()),
+    }
 }
